@@ -71,7 +71,7 @@ package packfile
 //gvc:  props C06 C53
 //gvc:  theory int
 //gvc:  results err
-//gvc:  modifies dst.#wlen
+//gvc:  modifies dst.#sink
 //gvc:  requires dstnn: dst != nil
 //gvc:  let d0 = arr(delta)
 //gvc:  let p0 = off(delta)
@@ -103,7 +103,7 @@ package packfile
 //gvc:  props C09 C53
 //gvc:  theory int
 //gvc:  results cnt err
-//gvc:  modifies b.n, b.w.#wlen
+//gvc:  modifies b.n, b.w.#sink
 //gvc:  requires inv: 0 <= b.n && b.n <= b.limit
 //gvc:  requires sane: b.limit <= 0x2000000000000000
 //gvc:  requires wnn: b.w != nil
@@ -207,7 +207,7 @@ package packfile
 //gvc:  theory bv
 //gvc:  opt nomerge
 //gvc:  results err
-//gvc:  modifies e.w@offsetWriter.offset, e.w.w.#wlen, e.w.w.#wdata
+//gvc:  modifies e.w@offsetWriter.offset, e.w.w.#sink
 //gvc:  requires nonneg: size >= 0
 //gvc:  requires typ: 1 <= typeNum && typeNum <= 7
 //gvc:  requires wnn: e.w != nil && e.w.w != nil && 0 <= e.w.offset && e.w.offset <= 0x2000000000000000
@@ -224,7 +224,7 @@ package packfile
 //gvc:func (*offsetWriter).Write
 //gvc:  props C07
 //gvc:  theory int
-//gvc:  modifies ow.offset, ow.w.#wlen, ow.w.#wdata
+//gvc:  modifies ow.offset, ow.w.#sink
 //gvc:  requires wnn: ow.w != nil
 //gvc:  requires sane: 0 <= ow.offset && ow.offset <= 0x2000000000000000
 //gvc:  ensures count: ow.offset == old(ow.offset) + n && ow.w.#wlen == old(ow.w.#wlen) + n
